@@ -78,6 +78,7 @@ namespace {
       std::vector<std::string> prev_kind;
       std::vector<Membership> memberships;
       int rounds = 0;
+      std::size_t tracked_at_round = 0;               // number of returned nodes at the previous round
       std::size_t opno = 0;
       // burst containers (created on first use), with their sentinels kept reachable through the observer
       impl::Enum* burst_enum = nullptr;
@@ -269,7 +270,7 @@ namespace {
       FAC("make_eclipsis", "T", "Expr", auto& t = c.T(); return L.make_eclipsis(t);)
       FAC("make_expr_list", "", "Xlist", return L.make_expr_list();)
       FAC("make_id_expr", "N oT", "Expr", auto& n = c.N(); auto t = c.oT(); return L.make_id_expr(n, t);)
-      FAC("make_id_expr_d", "Decl", "Expr", auto& d = c.as<ipr::Decl>(); return L.make_id_expr(d);)
+      FAC("make_id_expr_d", "Var", "Expr", auto& d = c.as<ipr::Decl>(); return L.make_id_expr(d);)
       FAC("make_label", "I oT", "Expr", auto& i = c.I(); auto t = c.oT(); return L.make_label(i, t);)
       FAC("make_enclosure", "q E oT", "Enclosure", auto d = c.num(); auto& e = c.E(); auto t = c.oT();
           return L.make_enclosure(static_cast<ipr::Delimiter>(d % 5), e, t);)
@@ -401,6 +402,8 @@ namespace {
          return dynamic_cast<const void*>(&s->get(index));
       }, dynamic_cast<const void*>(&m)});
    }
+
+   bool is_fresh(const ipr::Node& n) { return cx->tix.count(addr(n)) == 0 and not cx->ob.known(n); }
 
    void note_mutation(const ipr::Node& target, const ipr::Node* member)
    {
@@ -629,7 +632,9 @@ namespace {
          auto& old = cx->prev[k];
          if (old == o.fields and cx->prev_kind[k] == o.kind) continue;
          auto tit = cx->t_of_n.find(name);
-         auto token = [&](const std::string& t) { if (tit != cx->t_of_n.end()) changes[tit->second].insert(t); };
+         auto token = [&](const std::string& t) {      // compared with the model only for nodes returned before the previous round
+            if (tit != cx->t_of_n.end() and static_cast<std::size_t>(tit->second) < cx->tracked_at_round) changes[tit->second].insert(t);
+         };
          if (cx->prev_kind[k] != o.kind or old.size() != o.fields.size()) {
             std::cout << "#D " << name << " !shape " << cx->prev_kind[k] << '/' << old.size() << ' ' << o.kind << '/' << o.fields.size() << '\n';
             stable = false;
@@ -668,6 +673,7 @@ namespace {
          std::cout << '\n';
       }
       ++cx->rounds;
+      cx->tracked_at_round = cx->tix.size();
       std::cout << "S " << cx->tix.size() << ' ' << cx->rounds << '\n';
       bool addr_ok = true;
       for (auto& m : cx->memberships) if (m.refetch() != m.member) addr_ok = false;
@@ -711,8 +717,9 @@ namespace {
          const std::size_t index = s.elements().size();
          const ipr::Decl* d = declare(target, kind, n, t);
          remember(static_cast<const ipr::Scope&>(s).elements(), index, *d);
+         const bool fresh = is_fresh(*d);
          note_mutation(static_cast<const ipr::Scope&>(s), d);
-         out_impl.push_back(std::string("@fresh=") + (cx->tix.count(addr(*d)) == 0 and not cx->ob.known(*d) ? "1" : "0"));
+         out_impl.push_back(std::string("@fresh=") + (fresh ? "1" : "0"));
          ret(*d);
       }
       else if (op == "param") {                       // Parameter_list::add_member
@@ -722,8 +729,9 @@ namespace {
          const std::size_t index = pl.elements().size();
          const ipr::Parameter* d = pl.add_member(n, t);
          remember(pl.elements(), index, *d);
+         const bool fresh = is_fresh(*d);
          note_mutation(static_cast<const ipr::Parameter_list&>(pl), d);
-         out_impl.push_back(std::string("@fresh=") + (cx->tix.count(addr(*d)) == 0 and not cx->ob.known(*d) ? "1" : "0"));
+         out_impl.push_back(std::string("@fresh=") + (fresh ? "1" : "0"));
          ret(*d);
       }
       else if (op == "mparam") {                      // Mapping::param
@@ -733,8 +741,9 @@ namespace {
          const std::size_t index = m.parameters().elements().size();
          const ipr::Parameter* d = m.param(n, t);
          remember(m.parameters().elements(), index, *d);
+         const bool fresh = is_fresh(*d);
          note_mutation(m.parameters(), d);
-         out_impl.push_back(std::string("@fresh=") + (cx->tix.count(addr(*d)) == 0 and not cx->ob.known(*d) ? "1" : "0"));
+         out_impl.push_back(std::string("@fresh=") + (fresh ? "1" : "0"));
          ret(*d);
       }
       else if (op == "enumerator") {
@@ -743,8 +752,9 @@ namespace {
          const std::size_t index = e.members().size();
          const ipr::Enumerator* d = e.add_member(n);
          remember(e.members(), index, *d);
+         const bool fresh = is_fresh(*d);
          note_mutation(static_cast<const ipr::Enum&>(e), d);
-         out_impl.push_back(std::string("@fresh=") + (cx->tix.count(addr(*d)) == 0 and not cx->ob.known(*d) ? "1" : "0"));
+         out_impl.push_back(std::string("@fresh=") + (fresh ? "1" : "0"));
          ret(*d);
       }
       else if (op == "base") {
@@ -753,8 +763,9 @@ namespace {
          const std::size_t index = k.bases().size();
          const ipr::Base_type* d = k.declare_base(t);
          remember(k.bases(), index, *d);
+         const bool fresh = is_fresh(*d);
          note_mutation(static_cast<const ipr::Class&>(k), d);
-         out_impl.push_back(std::string("@fresh=") + (cx->tix.count(addr(*d)) == 0 and not cx->ob.known(*d) ? "1" : "0"));
+         out_impl.push_back(std::string("@fresh=") + (fresh ? "1" : "0"));
          ret(*d);
       }
       else if (op == "handler") {
@@ -764,8 +775,9 @@ namespace {
          const std::size_t index = b.handlers().size();
          const ipr::Handler* h = b.new_handler(n, t);
          remember(b.handlers(), index, *h);
+         const bool fresh = is_fresh(*h);
          note_mutation(static_cast<const ipr::Block&>(b), h);
-         out_impl.push_back(std::string("@fresh=") + (cx->tix.count(addr(*h)) == 0 and not cx->ob.known(*h) ? "1" : "0"));
+         out_impl.push_back(std::string("@fresh=") + (fresh ? "1" : "0"));
          ret(*h);
       }
       else if (op == "push") {
